@@ -1,6 +1,8 @@
 \* registration protocol, flows mode, repaired code (removals by value); the rapid-reload finding tolerated
 CONSTANTS
   Exprs = {"e1", "e2", "e3"}
+  MaxMult = 1
+  MultisetDiff = FALSE
   MaxLoads = 3
   DiffByValue = TRUE
   GlobalUnmanage = FALSE
